@@ -284,3 +284,27 @@ def scene_sites(scene, s, n=8):
     if any(abs(d) >= 89.99999 for _, d in sites) or any(not (0.0 <= r < 360.0) for r, _ in sites):
         return None
     return sites
+
+
+# ------------------------------------------------------------------ milli-arcsecond family (C04 layer M, C05 layer M)
+MAS = 1.0 / 3.6e6
+MICRO_LENGTHS = [MAS, 10.0 * MAS, 0.1 / 3600.0, 1.0 / 3600.0]
+MICRO_SCENES = ['equator', 'mid45', 'mid-75', 'seam', 'near-npole', 'npole', 'spole']
+# local sites in units of the length: (along RA, along Dec); pairwise separations 0, 0.5, 0.8, 1.3, 1.7, 2.5, 3.3, 3.8 ...
+_MICRO_LOCAL = [(0.0, 0.0), (0.0, 0.5), (0.0, 1.3), (0.8, 0.0), (0.0, 3.8), (-1.7, 0.0)]
+# polar sites: (RA, colatitude in units of the length): 0.5, 0.8, 1.3, 2.0, 2.5 across the pole
+_MICRO_POLAR = [(0.0, 0.25), (180.0, 0.25), (180.0, 1.05), (90.0, 0.55), (0.0, 2.25), (270.0, 3.0)]
+
+
+def micro_sites(scene, length, n=6):
+    """Compact sites (field of a few lengths) whose separations are simple multiples of `length`.  The float64
+    coordinates returned are the inputs; the oracle always works from these rounded values."""
+    if scene in ('npole', 'spole'):
+        sg = 1.0 if scene == 'npole' else -1.0
+        return [(r, sg * (90.0 - k * length)) for (r, k) in _MICRO_POLAR[:n]]
+    ra0, dec0 = {'equator': (150.0, 0.3), 'mid45': (30.0, 45.0), 'mid-75': (220.0, -75.0), 'seam': (None, 20.0),
+                 'near-npole': (310.0, 89.9)}[scene]
+    c = math.cos(math.radians(dec0))
+    if ra0 is None:
+        ra0 = 360.0 - 0.4 * length / c        # the RA line of sites straddles RA 0/360
+    return [((ra0 + x * length / c) % 360.0, dec0 + y * length) for (x, y) in _MICRO_LOCAL[:n]]
